@@ -59,11 +59,18 @@ var watch = []string{"bifrost/transport/controller.", "controllerbus/", "apertur
 type valueSet struct {
 	mu   sync.Mutex
 	vals map[uint32]link.MountedLink
+	// the constraint of the lookup, and how many values it was ever handed (even transiently, between two checkpoints)
+	// that are not links between the requested peers
+	src, dst peer.ID
+	badEver  int
 }
 
 func (v *valueSet) HandleValueAdded(_ directive.Instance, av directive.AttachedValue) {
 	ml, _ := av.GetValue().(link.MountedLink)
 	v.mu.Lock()
+	if ml != nil && (ml.GetRemotePeer() != v.dst || (v.src != "" && ml.GetLocalPeer() != v.src) || ml.GetLocalPeer() == ml.GetRemotePeer()) {
+		v.badEver++
+	}
 	v.vals[av.GetValueID()] = ml
 	v.mu.Unlock()
 }
@@ -153,7 +160,7 @@ func newWorld(le *logrus.Entry) *world {
 	// long-lived lookups for every (source, target) constraint
 	for _, s := range []string{"", "M1", "M2"} {
 		for _, d := range []string{"pA", "pB", "M1"} {
-			vs := &valueSet{vals: map[uint32]link.MountedLink{}}
+			vs := &valueSet{vals: map[uint32]link.MountedLink{}, src: pid(s), dst: pid(d)}
 			_, ref, err := w.b.AddDirective(link.NewEstablishLinkWithPeer(pid(s), pid(d)), vs)
 			if err != nil {
 				vio.Fatal("add directive: %v", err)
@@ -244,7 +251,13 @@ func (w *world) checkpoint(out *vio.Out) {
 	for n, l := range w.links {
 		closes[n] = l.Closes.Load()
 	}
-	out.Emit(map[string]any{"e": "q", "rep": rep, "looks": looks, "closes": closes})
+	badEver := map[string]any{}
+	for k, vs := range w.looks {
+		vs.mu.Lock()
+		badEver[k] = vs.badEver
+		vs.mu.Unlock()
+	}
+	out.Emit(map[string]any{"e": "q", "rep": rep, "looks": looks, "closes": closes, "badever": badEver})
 }
 
 func (w *world) shutdown() {
